@@ -232,6 +232,11 @@ and std_of (l : sexp list) : stdval =
   | [A "partial"; c; f; L args; L kws] ->
       SPartial (cls_of_sexp c, val_of f, List.map val_of args,
                 List.map (function L [L k; v] -> (cps k, val_of v) | _ -> failwith "kw") kws)
+  | [A "uuid"; c; L text] -> SUuid (cls_of_sexp c, cps text)
+  | [A "namespace"; c; L kws; L o] ->
+      SNamespace (cls_of_sexp c, List.map (function L [L k; v] -> (cps k, val_of v) | _ -> failwith "kw") kws, order_of o)
+  | [A "namedtuple"; c; L kws] ->
+      SNamedtuple (cls_of_sexp c, List.map (function L [L k; v] -> (cps k, val_of v) | _ -> failwith "kw") kws)
   | _ -> failwith "std"
 let optz = function A "none" -> None | x -> Some (zint x)
 
